@@ -15,6 +15,8 @@ Families
   longjump  loop / branch bodies approaching and exceeding the 18-bit jump range
   upvals    closures capturing many upvalues over several levels
   goto      goto / labels: forward, backward, continue, out of closures' scopes
+  vararg    vararg functions with 0..8 named parameters whose body only reads the implicit 'arg'
+            local (R(NumParameters)) or never touches it
 """
 import random
 
@@ -730,6 +732,53 @@ def goto_source(i, wrap):
 
 
 # --------------------------------------------------------------------------
+# vararg: the implicit 'arg' local of a vararg function lives in R(NumParameters); bodies that
+# only READ it (RETURN / SETGLOBAL / TEST / table access operands) or never touch it at all
+
+ARG_USES = [
+    "return arg", "g = arg", "if arg then return 1 end return 2", "return arg.n", "return arg[1]",
+    "return select('#', unpack(arg))", "while arg do break end", "return #arg", "gt.x = arg", "gt[arg] = 1",
+    "f(arg)", "return f(arg)", "return arg, 1", "return not arg", "return arg == nil", "return arg and 1",
+    "if not arg then g = 1 end", "arg = nil", "local x = arg return x", "return arg, ...", "return ...",
+    "return function() return arg end", "for i = 1, arg.n do end", "repeat until arg",
+    # no use of arg: the slot is written on entry all the same
+    "", "return", "return %P", "g = %P", "if %P then g = 1 end", "return %P, %P",
+]
+
+
+def vararg_source(np, use, form, locals_, dots=True):
+    ps = ["p%d" % i for i in range(np)]
+    body = ARG_USES[use]
+    last = ps[-1] if ps else "g"
+    body = body.replace("%P", last)
+    if locals_:
+        body = "local q = " + (ps[0] if ps else "1") + "\n" + body
+    plist = ", ".join(ps + (["..."] if dots else []))
+    if form == "local":
+        return "local function v(" + plist + ")\n" + body + "\nend\nreturn v\n"
+    if form == "method":        # self is one more parameter
+        return "local t = {}\nfunction t:m(" + plist + ")\n" + body + "\nend\nreturn t\n"
+    if form == "nested":        # inside a function that has upvalues and locals of its own
+        return ("local u = 1\nlocal function o(a, b, ...)\nlocal w = u\nreturn function(" + plist + ")\n" + body +
+                "\nend\nend\nreturn o\n")
+    return "return function(" + plist + ")\n" + body + "\nend\n"
+
+
+def vararg_cases(full):
+    out = []
+    for np in ((0, 1, 2, 3, 4, 5, 8) if full else (0, 1, 2, 3, 4)):
+        for use in range(len(ARG_USES)):
+            for form in ("local", "method", "anon", "nested"):
+                for loc in (0, 1):
+                    if not full and loc != {"local": 0, "method": 0, "anon": 1, "nested": use % 2}[form]:
+                        continue
+                    out.append(("vararg", "%d/%d/%s/%d" % (np, use, form, loc), {"np": np, "use": use, "form": form, "locals": loc}))
+            # the same body in a function without '...': arg is then a global
+            out.append(("vararg", "%d/%d/nodots" % (np, use), {"np": np, "use": use, "form": "local", "locals": 0, "dots": False}))
+    return out
+
+
+# --------------------------------------------------------------------------
 # rand: random compositions of the statement kinds (nesting, long bodies)
 
 def rand_source(seed, size):
@@ -772,6 +821,7 @@ def cases(tier, seed):
     out += longjump_cases(full)
     out += upvals_cases(full)
     out += goto_cases()
+    out += vararg_cases(full)
     for i in range(1500 if full else 150):
         out.append(("rand", "%d" % i, {"seed": seed * 100000 + i, "size": rng.choice([3, 6, 12, 25])}))
     return out
@@ -794,6 +844,8 @@ def source(fam, params):
         return longjump_source(params["kind"], params["n"])
     if fam == "upvals":
         return upvals_source(params["n1"], params["n2"], params["n3"], params["mode"])
+    if fam == "vararg":
+        return vararg_source(params["np"], params["use"], params["form"], params["locals"], params.get("dots", True))
     if fam == "goto":
         return goto_source(params["i"], params["wrap"])
     if fam == "rand":
